@@ -3,13 +3,22 @@
    hook, and the real start_heartbeats about the intervals it starts.
    L2 cases: real-time scenarios with h = 1 s, judged against windows derived from the
    model with a stated slack. *)
-From Amq Require Export Lib.Base Gen.Consts Model.Heartbeat.
+From Amq Require Export Lib.Base Gen.Consts Model.Heartbeat Model.Frames Model.OutBuf Model.Core.
 
 Inductive case :=
 | Fire (interval elapsed : N) (expired : bool)               (* ms *)
 | Intervals (secs : N) (started : option (N * N))            (* (rx, tx) in ms *)
 | IdleSend (secs : N) (gaps : list N)                        (* ms between consecutive writes of an idle client *)
 | Silent (secs : N) (failed_after : option N) (kind_ok : bool)     (* ms until MissedServerHeartbeats *)
+| SilentBusy (secs : N) (last_byte : N) (failed_after : option N) (kind_ok : bool)
+    (* the client has unsent data queued behind a stalled transport; the server's last byte came
+       last_byte ms after the timers started; the I/O thread is kept busy for 0.4 s around the
+       time the failure is due, so that it finds the tx and the rx timer due in one pass, tx
+       first; ms from the timers' start until the failure *)
+| HbPass (interval queued away : N) (missed ok : bool) (outlen : N)
+    (* one pass of process_heartbeat_timers over real timers (interval in ms) after the thread
+       was away for `away` ms with `queued` bytes of output pending: MissedServerHeartbeats
+       reported in that pass? / pass Ok? / out-buffer length afterwards *)
 | Live (secs : N) (period : N) (duration : N) (failed : bool)      (* server sends every `period` ms *)
 | Zero (duration : N) (heartbeats failures : N).
 
@@ -24,6 +33,16 @@ Definition model_agrees (c : case) : bool :=
       | Some (rx, tx), Some (r, t) => (h_interval rx =? r) && (h_interval tx =? t)
       | _, _ => false
       end
+  | HbPass h queued away missed ok outlen =>
+      (* what timer.poll() yields, in the order of the wheel: the tx entry (due at h) before the
+         rx entry (due at 2h); both have seen no activity *)
+      let fired := (if h <=? away + fudge_ms then [(HbTx, true)] else []) ++
+                   (if 2 * h <=? away + fudge_ms then [(HbRx, true)] else []) in
+      let c0 := set_out (init_core 10 16) {| ob := repeat 0 (N.to_nat queued); ob_sealed := false |} in
+      let '(o, c1) := heartbeat_timers fired c0 in
+      Bool.eqb missed (match o with OErr EMissedHeartbeats => true | _ => false end) &&
+      Bool.eqb ok (match o with OOk => true | _ => false end) &&
+      (N.of_nat (length (ob (c_out c1))) =? outlen)
   | _ => true
   end.
 
@@ -43,6 +62,19 @@ Definition oracle_ok (c : case) : bool :=
       | Some t => ok && (2000 * s <=? t + 50) && (t <=? 2000 * s + 2 * slack)
       | None => false
       end
+  | SilentBusy s last after ok =>
+      (* a firing that finds traffic since re-arms the rx timer for the remaining time, so the
+         failure comes 2h (less the 5 ms fudge) after the server's last byte - queued output
+         and the tx timer falling due in the same pass must not delay it *)
+      let due := last + 2000 * s - fudge_ms in
+      match after with
+      | Some t => ok && (due <=? t + 60) && (t <=? due + 450)
+      | None => false
+      end
+  | HbPass h queued away missed ok outlen =>
+      (* silence of 2h is reported in the pass that finds it, whatever else is due and whatever
+         is queued; less than 2h is not *)
+      Bool.eqb missed (2 * h <=? away + fudge_ms)
   | Live s period dur failed => negb failed
   | Zero dur hbs fails => (hbs =? 0) && (fails =? 0)
   end.
